@@ -8,7 +8,7 @@ import numpy as np
 import common as C
 
 PROP = "C15"
-LEAN_MODULES = ["AcryoVerif.Props.C15"]
+LEAN_MODULES = ["AcryoVerif.Props.C15", "AcryoVerif.Props.C15Array"]
 LEAN_SUPPORT = ["AcryoVerif.Lemmas.PyLemmas", "AcryoVerif.Model.Bin"]
 KERNELS = ["binAxis", "binIsBlockSum", "binTrLoader", "binTrBatch", "binScaleLoader", "binScaleBatch",
            "binStructureLoader", "binStructureBatch"]
@@ -26,10 +26,17 @@ EXPLANATION = (
     "at the new scale, maps back to the same original pixel coordinate; voxel k of a binned box is the "
     "b-block K = b*k + j of the b-times larger original box. K2: bin_image vs the block-sum model on "
     "numpy and dask inputs. Oracle: binned loader subtomograms vs block sums of the original loader's "
-    "larger subtomograms (single and batch, b = 1..6, lazy/eager).")
+    "larger subtomograms (single and batch, b = 1..6, lazy/eager). Array level (C15Array): Model.binList / "
+    "binHist are the executable list model of one axis of bin_image and of a history of binnings; "
+    "binList_spec (voxel i = sum of x[b*i .. b*i+b-1], s//b voxels, nothing read past the axis), "
+    "binList_binList / binHist_eq (any history of binnings = one binning by the product, every length) and "
+    "binList_mass hold for every list; K2 runs the same histories through the real bin_image (numpy and "
+    "dask, random chunkings, lengths not divisible by the bin sizes) along one axis.")
 SAMPLE_OBLIGATIONS = [
     {"theorem": "C15.same_location", "statement": "b*((p+tr)/(b*sigma)) + (b-1)/2 = p/sigma"},
     {"theorem": "C15.bin_axis", "statement": "npix = s//b, used = b*npix <= s < used + b"},
+    {"theorem": "C15.binList_spec", "statement": "i < len/b -> (binList b xs)[i]? = some (sum_{r<b} xs[b*i+r])"},
+    {"theorem": "C15.binHist_eq", "statement": "binHist bs xs = binList bs.prod xs"},
 ]
 
 
@@ -63,6 +70,42 @@ def correspondence(rng, thorough):
         stats["cases"] += 1
         lines.append(f"m:bin {b} {shape[0]} {shape[1]} {shape[2]} " + " ".join(C.rat_str(x) for x in a.reshape(-1)))
         impl.append(" ".join(map(str, out.shape)) + " | " + " ".join(C.rat_str(x) for x in out.reshape(-1)))
+    # array-level model (C15Array): a history of binnings b1, b2, .. of ONE axis through the real bin_image.
+    # The axis is row [0, 0, :] of an image that holds exactly one block along the other two axes (zeros
+    # elsewhere), so the real 3-D block sum along that row is the 1-D block sum of the model.
+    stats["axis_histories"] = 0
+    stats["axis_remainders"] = 0
+    for it in range(40 if thorough else 16):
+        k = int(rng.integers(1, 4))
+        bs = [int(rng.integers(1, 5)) for _ in range(k)]
+        if it % 5 == 0:
+            bs = [1] + bs[:2]
+        k = len(bs)
+        prod = int(np.prod(bs))
+        n = int(rng.integers(0, 3)) * prod + int(rng.integers(0, 2 * prod + 3))     # also shorter than one block
+        xs = rng.integers(-9, 10, size=n).astype(np.float32)
+        side = prod
+        a = np.zeros((side, side, n), dtype=np.float32)
+        a[0, 0, :] = xs
+        axis = it % 3
+        a = np.moveaxis(a, 2, axis)
+        cur = a
+        if it % 2 and n > 0:
+            cuts = sorted({int(c) for c in rng.integers(1, max(2, n), size=int(rng.integers(0, 4)))} - {n}) if n > 1 else []
+            ch = [(side,), (side,), (side,)]
+            ch[axis] = tuple(np.diff([0] + cuts + [n]).tolist())
+            cur = da.from_array(a, chunks=tuple(ch))
+        try:
+            for b in bs:
+                cur = bin_image(cur, b)
+            out = np.moveaxis(np.asarray(cur), axis, 2)
+            got = " ".join(C.rat_str(x) for x in out.reshape(-1)) if out.shape[:2] == (1, 1) else f"shape {out.shape}"
+        except Exception as e:  # noqa: BLE001
+            got = "error " + type(e).__name__
+        stats["axis_histories"] += 1
+        stats["axis_remainders"] += any(n % b for b in bs)
+        lines.append(f"m:binaxis {k} " + " ".join(map(str, bs)) + (" " if n else "") + " ".join(C.rat_str(x) for x in xs))
+        impl.append(got)
     return lines, impl, stats
 
 
